@@ -3,3 +3,6 @@
 //%item packages/haloswap/src/pair.rs enum Cw20HookMsg
 //%item packages/haloswap/src/pair.rs struct SimulationResponse
 //%item packages/haloswap/src/pair.rs struct ReverseSimulationResponse
+//%item packages/haloswap/src/pair.rs struct InstantiateMsg
+//%item packages/haloswap/src/asset.rs struct LPTokenInfo
+impl Clone for LPTokenInfo { #[verifier::external_body] fn clone(&self) -> (r: LPTokenInfo) ensures r == *self { unimplemented!() } }
